@@ -2,8 +2,18 @@ use super::MetricTrait;
 use crate::base::TimePredicate;
 use crate::utils::curr_time_millis;
 use crate::{Error, Result};
+#[cfg(not(sentinel_verif))]
 use std::sync::atomic::{AtomicU64, Ordering};
+#[cfg(sentinel_verif)]
+use crate::verif_sync::AtomicU64;
+#[cfg(sentinel_verif)]
+use std::sync::atomic::Ordering;
+#[cfg(not(sentinel_verif))]
 use std::sync::{Arc, Mutex};
+#[cfg(sentinel_verif)]
+use std::sync::{Arc};
+#[cfg(sentinel_verif)]
+use crate::verif_sync::{Mutex};
 
 const DEFAULT_TIME: u64 = 0;
 
